@@ -6,6 +6,8 @@ Driver for the C15 correspondence.  One request per line:
   `gen <pps> <chunks>`   pps: `-` or comma list of `T` / `L<n>`; chunks: `|`-separated encoded strings
                          (`-` = empty chunk; `!` = no chunks at all)  → encoded output text
   `old <pps> <chunks>`   same through the pre-fix loop (`genLinesBeforeFix`)
+  `files <pps> <files>`  files: `/`-separated chunk lists, one per generated file, through one processor list
+                         (start state deliberately non-zero) → `/`-separated encoded file texts
   `isws <codepoint>`     → `1` / `0`
 -/
 open NunavutVerif NunavutVerif.LineBuffer NunavutVerif.Proto
@@ -30,6 +32,11 @@ def answer (line : String) : String :=
     match parsePPs pps, parseChunks chunks with
     | some pps, some chunks =>
       encodeStr (write (pipeLines pps (pps.map fun _ => 0) (genLinesBeforeFix chunks)))
+    | _, _ => "bad-op"
+  | ["files", pps, files] =>
+    -- files: `/`-separated chunk lists; answer: `/`-separated encoded file texts
+    match parsePPs pps, (splitOnChar files '/').mapM parseChunks with
+    | some pps, some fs => "/".intercalate ((genFiles pps (pps.map fun _ => 7) fs).map encodeStr)
     | _, _ => "bad-op"
   | ["isws", n] =>
     match n.toNat? with
